@@ -163,48 +163,95 @@ theorem C18_traceback_frames_partial (f : Fiber) (hr : running f = true) (ip : N
   obtain ⟨h1, d, -, h3, h4, h5⟩ := LinesUnwind.unwindFrom_uncaught _ none ds _ _ pre f' h
   exact ⟨by rw [h1]; simp [storeIp, LinesUnwind.setIp_map_fn], d, h3, h4, fun hn => h5 (by simpa [storeIp] using hn)⟩
 
+/-! ### errors and exits that cross natives (nested interpreter loops) -/
+
+/-- **C18_nested_catch_above_bottom.**  A native called back when the fiber had `b` frames; the
+callback's nested interpreter loop (`ExecutionMode::CallingNativeCode(b)`) runs a catch clause only
+for a handler of a frame pushed *by that loop*: more than `b` frames remain.  A `try` in the frame
+that drives the native (or further out) is never run inside the native's callback; it is reached by
+the loop that called the native, after the native has returned the error. -/
+theorem C18_nested_catch_above_bottom (f : Fiber) (hr : running f = true) (ip b : Nat)
+    (ds : List (Bool × Nat)) (bt : List (Nat × Nat)) (f' : Fiber)
+    (h : unwindRun (some b) f ip ds = .caught bt f') : b < f'.frames.length := by
+  simp only [running, Bool.and_eq_true, List.isEmpty_iff, decide_eq_true_eq] at hr
+  obtain ⟨⟨hb, hcur⟩, hs⟩ := hr
+  have hlen : (storeIp f ip).frames.length = f.frames.length := by simp [storeIp, LinesUnwind.setIp_length]
+  have pre := LinesUnwind.pre_initial (storeIp f ip) (by rw [hlen]; exact hs) (by simpa [storeIp] using hb)
+  exact LinesUnwind.unwindFrom_caught_above _ b ds _ _ pre bt f' h
+
+/-- **C18_unwind_across_natives.**  However many natives that called back lie between the raising
+frame and the loop of `Vm::run` (`bottoms`: the frame counts they recorded, innermost first), the
+error that travels out through them — each nested loop stops at its bottom, the native returns the
+error, the calling loop unwinds on — ends exactly as one uninterrupted search over the fiber does:
+same catching clause, same captured backtrace, same frames for `print_error`.  Hence
+`C18_backtrace_frames` and `C18_traceback_frames(_partial)` hold for errors that cross natives
+(`iter.each`, `List.sort`, `print` → `str()`, lazy iterators, …). -/
+theorem C18_unwind_across_natives (bottoms : List Nat) (f : Fiber) (ip : Nat) (ds : List (Bool × Nat)) :
+    unwindLoops bottoms (storeIp f ip) ds = unwindRun none f ip ds :=
+  LinesUnwind.unwindLoops_eq bottoms _ ds
+
 /-! ### C18_status -/
+
+/-- An `exit` keeps its code through any number of natives that called back: `to_call_result` hands
+it to the native as `LyError::Exit(code)`, and the loop that called the native answers
+`set_exit(code)`. -/
+theorem C18_exit_through_natives (k code : Nat) : throughNatives k (.Exit code) = some (.Exit code) := by
+  induction k with
+  | zero => rfl
+  | succ k ih => simp [throughNatives, throughNative, toCallResult, signalResult, nativeExitSignal, ih]
+
+/-- The status of `exit` does not depend on where it is called. -/
+theorem C18_exit_status_anywhere (a : Option Int) (k : Nat) : status (.exitCall a k) = status (.exitCall a 0) := by
+  cases a <;> simp [status, execResult, C18_exit_through_natives]
 
 /-- **C18_status.**  The outcome → exit status table of `Vm::run` / `main.rs` is total and as
 documented: normal finish and `exit()` give 0; `exit(n)` gives `n` for every `n` a status can hold
-(`0..65535`, the `u16` of `LyError::Exit`); an uncaught error, a compile error and a deadlock give
-1; the status is 0 only for a normal finish, an `exit` with a non-positive argument, or — a genuine
-defect, `C18_witness_import_compile_error_status` — a compile error in an imported module; `main`
-passes the status to `process::exit`. -/
+(`0..65535`, the `u16` of `LyError::Exit`) — also when it is called inside the callback of a native,
+at any nesting depth `k`; an uncaught error, a compile error of the script or of an imported module,
+and a deadlock give 1; the status is 0 only for a normal finish or an `exit` with a non-positive
+argument; `main` passes the status to `process::exit`. -/
 theorem C18_status :
     status .finished = some (0, .Ok) ∧
-    status (.exitCall none) = some (0, .Ok) ∧
-    (∀ n : Int, 0 ≤ n → n ≤ 65535 → (status (.exitCall (some n))).map Prod.fst = some n) ∧
-    (∀ n : Int, 0 < n → n ≤ 65535 → (status (.exitCall (some n))).map Prod.snd = some .RuntimeError) ∧
+    (∀ k, status (.exitCall none k) = some (0, .Ok)) ∧
+    (∀ (n : Int) (k : Nat), 0 ≤ n → n ≤ 65535 → (status (.exitCall (some n) k)).map Prod.fst = some n) ∧
+    (∀ (n : Int) (k : Nat), 0 < n → n ≤ 65535 → (status (.exitCall (some n) k)).map Prod.snd = some .RuntimeError) ∧
     status .uncaughtError = some (1, .RuntimeError) ∧
     status .compileError = some (1, .CompileError) ∧
+    status .importCompileError = some (1, .CompileError) ∧
     status .deadlock = some (1, .RuntimeError) ∧
     (∀ e, (status e).isSome = true) ∧
     (∀ e, (status e).map Prod.fst = some 0 →
-        e = .finished ∨ e = .exitCall none ∨ (∃ n, n ≤ 0 ∧ e = .exitCall (some n)) ∨ e = .importCompileError) ∧
+        e = .finished ∨ (∃ k, e = .exitCall none k) ∨ (∃ n k, n ≤ 0 ∧ e = .exitCall (some n) k)) ∧
     mainExitsWithRunCode = true := by
-  refine ⟨rfl, rfl, ?_, ?_, rfl, rfl, rfl, ?_, ?_, rfl⟩
-  · intro n h0 h1
-    simp only [status, execResult, runStatus_exit_fst, castUnsigned_id n h0 h1]
-  · intro n h0 h1
+  refine ⟨rfl, ?_, ?_, ?_, rfl, rfl, rfl, rfl, ?_, ?_, rfl⟩
+  · intro k
+    rw [C18_exit_status_anywhere]; rfl
+  · intro n k h0 h1
+    rw [C18_exit_status_anywhere]
+    simp only [status, execResult, throughNatives, Option.bind_some, runStatus_exit_fst, castUnsigned_id n h0 h1]
+  · intro n k h0 h1
+    rw [C18_exit_status_anywhere]
     have := castUnsigned_id n (by omega) h1
-    simp only [status, execResult]
+    simp only [status, execResult, throughNatives, Option.bind_some]
     cases hc : castUnsigned exitCastBits n with
     | zero => rw [hc] at this; omega
     | succ m => simp [runStatus]
   · intro e
     cases e with
-    | exitCall a => cases a <;> simp [status, execResult, runStatus, exitDefault] <;> split <;> rfl
+    | exitCall a k =>
+      rw [C18_exit_status_anywhere]
+      cases a <;> simp [status, execResult, throughNatives, runStatus, exitDefault] <;> split <;> rfl
     | _ => rfl
   · intro e h
     cases e with
     | finished => exact Or.inl rfl
-    | exitCall a =>
+    | exitCall a k =>
       cases a with
-      | none => exact Or.inr (Or.inl rfl)
+      | none => exact Or.inr (Or.inl ⟨k, rfl⟩)
       | some n =>
-        refine Or.inr (Or.inr (Or.inl ⟨n, ?_, rfl⟩))
-        simp only [status, execResult, runStatus_exit_fst, Option.some.injEq] at h
+        refine Or.inr (Or.inr ⟨n, k, ?_, rfl⟩)
+        rw [C18_exit_status_anywhere] at h
+        simp only [status, execResult, throughNatives, Option.bind_some, runStatus_exit_fst, Option.some.injEq] at h
         have h2 : (2 ^ exitCastBits - 1 : Nat) = 65535 := by decide
         unfold castUnsigned at h
         rw [h2] at h
@@ -213,19 +260,41 @@ theorem C18_status :
         · split at h <;> omega
     | uncaughtError => simp [status, execResult, unhandledResult, runStatus] at h
     | compileError => simp [status, execResult, runStatus] at h
-    | importCompileError => exact Or.inr (Or.inr (Or.inr rfl))
+    | importCompileError => simp [status, execResult, signalResult, importCompileErrorSignal, runStatus] at h
     | deadlock => simp [status, execResult, runStatus] at h
 
-/-- **Witness of a genuine defect** (known finding D184): a compile error in an imported module makes
-`op_import` signal `Exit` without setting an exit code, so the program ends with status 0. -/
-theorem C18_witness_import_compile_error_status : status .importCompileError = some (0, .Ok) := by rfl
+/-- **C18_status_kind.**  The kind of exit (`VmExit`) is faithful too: `CompileError` exactly for a
+compile error of the script or of a module it imports (with status 1); `Ok` exactly with status 0. -/
+theorem C18_status_kind (e : ProgramEnd) (code : Int) (k : VmExit) (h : status e = some (code, k)) :
+    (k = .CompileError ↔ e = .compileError ∨ e = .importCompileError) ∧
+    (k = .Ok ↔ code = 0) ∧ (k = .CompileError → code = 1) := by
+  cases e with
+  | exitCall a n =>
+    rw [C18_exit_status_anywhere] at h
+    cases a with
+    | none =>
+      simp [status, execResult, throughNatives, runStatus, exitDefault] at h
+      obtain ⟨h1, h2⟩ := h; subst h1; subst h2; simp
+    | some m =>
+      simp only [status, execResult, throughNatives, Option.bind_some] at h
+      cases hc : castUnsigned exitCastBits m with
+      | zero =>
+        rw [hc] at h; simp [runStatus] at h
+        obtain ⟨h1, h2⟩ := h; subst h1; subst h2; simp
+      | succ j =>
+        rw [hc] at h; simp [runStatus] at h
+        obtain ⟨h1, h2⟩ := h; subst h1; subst h2
+        simp; omega
+  | _ =>
+    simp [status, execResult, signalResult, importCompileErrorSignal, unhandledResult, runStatus, exitCodeInit] at h
+    obtain ⟨h1, h2⟩ := h; subst h1; subst h2; simp
 
 /-- Outside `0..65535` the argument of `exit` saturates (Rust's `f64 as u16`); the property's
 "status n" cannot hold there.  (Further, the operating system keeps only the low 8 bits of what
 `process::exit` receives.) -/
 theorem C18_status_saturates :
-    status (.exitCall (some (-3))) = some (0, .Ok) ∧
-    status (.exitCall (some 70000)) = some (65535, .RuntimeError) := by
+    status (.exitCall (some (-3)) 0) = some (0, .Ok) ∧
+    status (.exitCall (some 70000) 0) = some (65535, .RuntimeError) := by
   constructor <;> rfl
 
 /-! ### non-vacuity and witnesses -/
@@ -268,8 +337,21 @@ theorem C18_witness_traceback_after_declined_catch :
       .uncaught { frames := [⟨0, 40⟩, ⟨1, 12⟩, ⟨2, 58⟩, ⟨3, 9⟩], handlers := [], backtraceIps := [9, 30], cur := 2 } := by
   decide
 
-example : status (.exitCall (some 42)) = some (42, .RuntimeError) := by rfl
-example : status (.exitCall (some 0)) = some (0, .Ok) := by rfl
+example : status (.exitCall (some 42) 0) = some (42, .RuntimeError) := by rfl
+example : status (.exitCall (some 0) 0) = some (0, .Ok) := by rfl
+/-- `exit(3)` inside the comparator of a `sort` inside an `each` -/
+example : status (.exitCall (some 3) 2) = some (3, .RuntimeError) := by rfl
+
+/-- A `try` in the script (depth 1) drives `[0].iter().map(cb).list()` (stack-less: no stub frame,
+so the native recorded 1 frame); `cb` (frame 1) raises at ip 9.  The callback's loop stops … -/
+example : unwindRun (some 1) { frames := [⟨0, 40⟩, ⟨1, 5⟩], handlers := [⟨70, 1⟩], backtraceIps := [], cur := 1 } 9 [(true, 0)]
+    = .stopped { frames := [⟨0, 40⟩, ⟨1, 9⟩], handlers := [⟨70, 1⟩], backtraceIps := [], cur := 1 } [(true, 0)] := by decide
+/-- … and the script's loop catches, with both frames in the backtrace. -/
+example : unwindLoops [1] (storeIp { frames := [⟨0, 40⟩, ⟨1, 5⟩], handlers := [⟨70, 1⟩], backtraceIps := [], cur := 1 } 9) [(true, 0)]
+    = .caught [(1, 8), (0, 39)] { frames := [⟨0, 70⟩], handlers := [⟨70, 1⟩], backtraceIps := [], cur := 0 } := by decide
+/-- a handler inside the callback itself (depth 2 > 1) is run by the callback's loop -/
+example : unwindRun (some 1) { frames := [⟨0, 40⟩, ⟨1, 5⟩], handlers := [⟨20, 2⟩], backtraceIps := [], cur := 1 } 9 [(true, 0)]
+    = .caught [(1, 8)] { frames := [⟨0, 40⟩, ⟨1, 20⟩], handlers := [⟨20, 2⟩], backtraceIps := [], cur := 1 } := by decide
 
 /-- The property's demand on tracebacks at full strength: whatever happened on the way, an
 unhandled error is printed from the frames as they were when it was raised. -/
